@@ -5,7 +5,7 @@
    model for all histories (CowProofs.v).  Nothing but statements closed by [exact]. *)
 From Coq Require Import List NArith Bool.
 Import ListNotations.
-From V Require Import Sem Prod.
+From V Require Import Sem Prod MemoTable.
 From V Require Lang.
 From V Require Import StoreDefs StoreProofs ReindexDefs ReindexProofs ValueDefs ValueProofs CowDefs CowProofs.
 
@@ -109,6 +109,24 @@ Theorem C11_unique_tuple_set_exclusive : forall c h fs m q cl a ts, ts_unique c 
   forall h2 fs2 m2 q2 cl2 a2, live c h2 fs2 m2 -> get q2 (mget c m2) = Some cl2 -> get a2 (cget c cl2) = Some ts -> cl2 = cl /\ a2 = a.
 Proof. exact ts_excl. Qed.
 
+(* (A) a memo kept in the storage that copies share (a fact computed from the rules: reachability, a simulation relation, a derived view):
+   with MemoTable.Copy sharing the table, MemoTable.Add detaching, appending and DROPPING the memo, and MemoTable.Query answering from the memo or filling it, every answer
+   of every operation sequence is the function F of the handle's value — for any F *)
+Theorem C11_memo_sound : forall (F : list N -> bool) ops, MemoTable.no_raw ops -> snd (MemoTable.run F MemoTable.init_st ops) = snd (MemoTable.vrun F (cons nil nil) ops).
+Proof. exact MemoTable.memo_sound_init. Qed.
+Theorem C11_memo_sound_from : forall (F : list N -> bool) ops s v, MemoTable.Rep F s v -> MemoTable.no_raw ops -> snd (MemoTable.run F s ops) = snd (MemoTable.vrun F v ops).
+Proof. exact MemoTable.memo_sound. Qed.
+(* an insertion path that keeps the memo (a result assembled from an operand's table) makes answers depend on the history: refuted *)
+Theorem C11_memo_raw_refuted :
+  let ops := cons (MemoTable.Query 0) (cons (MemoTable.AddRaw 0 7%N) (cons (MemoTable.Query 0) nil)) in
+  snd (MemoTable.run MemoTable.is_nil MemoTable.init_st ops) = cons (Some true) (cons None (cons (Some true) nil)) /\
+  snd (MemoTable.vrun MemoTable.is_nil (cons nil nil) ops) = cons (Some true) (cons None (cons (Some false) nil)).
+Proof. exact MemoTable.memo_raw_refuted. Qed.
+Example C11_memo_example :
+  snd (MemoTable.run MemoTable.is_nil MemoTable.init_st (cons (MemoTable.Query 0) (cons (MemoTable.Copy 0) (cons (MemoTable.Add 0 7%N) (cons (MemoTable.Query 0) (cons (MemoTable.Query 1) nil))))))
+  = cons (Some true) (cons None (cons None (cons (Some false) (cons (Some true) nil)))).
+Proof. exact MemoTable.memo_add_example. Qed.
+
 Print Assumptions C11_frame.
 Print Assumptions C11_copy_isolated.
 Print Assumptions C11_copy_isolated_src.
@@ -133,3 +151,7 @@ Print Assumptions C11_cow_result_independent_clusters.
 Print Assumptions C11_cow_result_independent_map.
 Print Assumptions C11_unique_cluster_exclusive.
 Print Assumptions C11_unique_tuple_set_exclusive.
+Print Assumptions C11_memo_sound.
+Print Assumptions C11_memo_sound_from.
+Print Assumptions C11_memo_raw_refuted.
+Print Assumptions C11_memo_example.
